@@ -142,4 +142,31 @@ theorem plainOutcomeAt_found (cfg : Cfg) (l : Lid) (name : Name) :
           exact ⟨k, nm, ⟨rfl, rfl⟩, hk⟩
         · simp [hb, hk]
 
+/-- nothing anywhere on the route of `Mod::X`: two placeholders (global loader, module loader), no read -/
+theorem module_absent (cfg : Cfg) (mod : String) (hv : cfg.via = .m mod) (hm : isGlobalMod mod = false)
+    (a b : String) (s : St) (n : Nat)
+    (hparts : partsOf [a, b] = some [mod, lowerS b]) (hparts1 : partsOf [a] = some [mod])
+    (hsys : sysLoad [a, b] = none)
+    (hg1 : s.get .g (keyOf [a, b]) = none) (hg2 : s.get .g (keyOf [a]) = none)
+    (hm1 : s.get (.m mod) (keyOf [a, b]) = none) (hm2 : s.get (.m mod) (keyOf [a]) = none)
+    (hi1 : idx cfg .g (keyOf [a, b]) = []) (hi2 : idx cfg .g (keyOf [a]) = [])
+    (hi3 : idx cfg (.m mod) (keyOf [a, b]) = []) (hi4 : idx cfg (.m mod) ["init_typeset"] = []) :
+    loadS (n+9) cfg s [a, b] =
+      (.notfound, (s.put .g (keyOf [a, b]) none).put (.m mod) (keyOf [a, b]) none) := by
+  obtain ⟨mods, tree, via, gi⟩ := cfg
+  simp only at hv
+  subst hv
+  have hmne : mod ≠ "" := by intro h; subst h; simp [isGlobalMod] at hm
+  have hq : qualified [a, b] = true := rfl
+  have hq1 : qualified [a] = false := rfl
+  have hdl : ([a, b] : Name).dropLast = [a] := rfl
+  have hdl1 : ([a] : Name).dropLast = [] := rfl
+  have hne : (Lid.g, keyOf [a, b]) ≠ (Lid.m mod, keyOf [a, b]) := by intro h; cases h
+  have hne' : (Lid.m mod, keyOf [a]) ≠ (Lid.g, keyOf [a, b]) := by intro h; cases h
+  unfold loadS load
+  simp only [loadEntry, fbLoadEntry, find_g, findTail, parentSearch, bind, pure, getSt, hsys, hg1, hg2, hi1, hi2, hq, hq1,
+    hdl, hdl1, if_true]
+  simp [setEntry, hg1, get_put, hm1, hm2, hne.symm, hne, hne', find, Lid.moduleName, hq, hq1, hm, hmne, partsM, hparts,
+    hparts1, findTail, hi3, hi4, parentSearch, hdl, hdl1, bind, pure, getSt]
+
 end Pcore.Files
